@@ -500,6 +500,11 @@ def build_image(layouts, required, rng, level, pol, scan, n_lines, n_pixels, pro
                     enum_consts[nm] = int.from_bytes(ptree[nm].raw, "big")
         if c8:
             pats = f32_patterns(rng, 2 * n_pixels)
+            if rng.random() < 0.15:
+                # a whole line of one special value (blank lines, burst gaps): all -0.0, all +0, all one NaN payload, mixed signed zeros
+                kind = rng.choice(["negzero", "zero", "nan", "signed-zeros"])
+                pats = [{"negzero": 0x80000000, "zero": 0, "nan": 0x7FC00001}.get(kind, rng.choice([0, 0x80000000])) if kind != "signed-zeros"
+                        else rng.choice([0, 0x80000000]) for _ in range(2 * n_pixels)]
             row = [(pats[2 * j], pats[2 * j + 1]) for j in range(n_pixels)]
             sb = b"".join(pystruct.pack(">LL", re, im) for re, im in row)
         else:
